@@ -12,7 +12,7 @@
    checked arithmetic), so "never panics on any string" holds by typing of the model and is tied to
    the code by the correspondence check (UTF-8 decoding and split_whitespace are std's). *)
 From CKC Require Import Base.Prelude Base.Reflect Spec.Layout Model.Card Model.Binary Model.Parse.
-From CKC Require Import Proofs.CardFacts Proofs.C12.
+From CKC Require Import Proofs.CardBase Proofs.C12.
 From CKC Require Import Gen.Chars.
 Open Scope N_scope.
 
